@@ -21,7 +21,8 @@ RULE = ("(a) Matchers: EVERY calendar date 1900-01-01..2154-12-31 against every 
         "value at every minute inside the period and the interpreter task stays scheduled after every midnight and across the "
         "edges of the period. Non-trivial: schedule with >= 1 exception in force on the probe date, or a Null entry, or a probe "
         "date at an edge of the effective period. Distinct by (schedule, date)."
-        " Also: weekly-only and exception-only schedules; timer-driven runs in the EST5EDT zone (summer, winter, across both clock changes).")
+        " Also: weekly-only and exception-only schedules; timer-driven runs in the EST5EDT zone (summer, winter, across both clock changes)."
+        " One reduced copy of a generated shard runs with the library's debug tracing switched on (label tracing-on).")
 ASSUMPTIONS = [
     "time-value lists are sorted with distinct times; exceptions have distinct priorities; date-range ends are fully specified or fully unspecified",
     "TZ=UTC except in the runs labelled timer:dst-zone (EST5EDT); there the three hours on either side of a clock change are not judged",
